@@ -8,7 +8,10 @@ ARCHES = ['x86', 'amd64', 'arm', 'arm64', 'arm64_old', 'mips']
 
 
 def program(config='default'):
-    return Program(harness.ensure_facts(config))
+    import slices
+    prog = Program(harness.ensure_facts(config))
+    slices.PROG = prog
+    return prog
 
 
 def need_fn(res, crate, path, rid):
